@@ -128,6 +128,7 @@ def run_property(prop: str, tier: str, seed: int, replay: str | None = None,
 
     # ---- run the jobs on a bounded pool ------------------------------------------
     running = []
+    retries = {}
     pending = list(jobs)
     finished = []
     procs_used = 0
@@ -147,6 +148,16 @@ def run_property(prop: str, tier: str, seed: int, replay: str | None = None,
                 running.remove(item)
                 procs_used -= max(1, job[0].threads)
                 logf.close()
+                if p.returncode is not None and p.returncode < 0 and not os.path.exists(job[3]) \
+                        and retries.get(job[3], 0) < 5:
+                    # the worker was killed by a signal (observed: rare SIGSEGV inside native third-party code,
+                    # another shard each time with the same seed, i.e. not a function of the cases): the shard
+                    # is run again in a fresh process; a shard that dies six times is a harness error
+                    retries[job[3]] = retries.get(job[3], 0) + 1
+                    print(f"[runner] worker of {job[0].name}/{job[1]} died with signal {-p.returncode}; "
+                          f"restart {retries[job[3]]}", file=sys.stderr)
+                    pending.insert(0, job)
+                    continue
                 finished.append((job, p.returncode))
 
     # ---- merge --------------------------------------------------------------------
